@@ -190,16 +190,41 @@ def race_scenario(rnd, sid, progs, special):
 
 def run(ctx):
     thorough = not ctx.quick
-    # 1. protocol model; the two crippled protocols must break the invariants (anti-vacuity)
-    r = ctx.model_check('Build', 'Build_thorough.cfg' if thorough else 'Build.cfg', require_cover=ACTIONS, timeout=1500)
+    # 1. protocol model; six crippled protocols must break the invariants (anti-vacuity).  The crippled runs and the
+    #    program enumeration for the repeated-build scenarios go side by side (own TLC work dirs: Ctx.model_check shares one
+    #    per module), the full model with its coverage guard runs in the foreground
+    import os
+    import shutil
+    import threading
+    from concurrent.futures import ThreadPoolExecutor
+    from harness import tlc
+    lock_ = threading.Lock()
+
+    def crippled(cfg, inv):
+        wd = os.path.join(ctx.work, 'm_' + cfg)
+        r_ = tlc.run('Build', cfg, wd, workers=2, timeout=600)
+        shutil.rmtree(wd, ignore_errors=True)
+        with lock_:
+            ctx.cov['model_runs'].append(dict(module='Build', cfg=cfg, label='crippled protocol must violate ' + inv,
+                                              **r_.summary()))
+            ctx.cov['states'] += r_.distinct
+            ctx.cov['transitions'] += r_.generated
+        if inv not in r_.violated:
+            raise MachineryError('%s: expected violation of %s, got %s' % (cfg, inv, r_.violated))
+    ex = ThreadPoolExecutor(max_workers=8)
+    futs = [ex.submit(crippled, cfg, inv) for cfg, inv in (
+        ('Build_noclear.cfg', 'NoResidue'), ('Build_noreadclear.cfg', 'NoResidue'), ('Build_ctxearly.cfg', 'Isolation'),
+        ('Build_clearlate.cfg', 'Isolation'), ('Build_sharedextras.cfg', 'Deterministic'), ('Build_nolock.cfg', 'Deterministic'))]
+    # programs with dead code next to fusable sums (slice dfS / df3 of SynthGraphGen) for the repeated-build scenarios
+    frep = ex.submit(lambda: sp.tlc_programs(ctx, 'df3' if thorough else 'dfS', timeout=1500, workers=4,
+                                             label='programs with dead code next to fusable sums'))
+    r = ctx.model_check('Build', 'Build_thorough.cfg' if thorough else 'Build.cfg', require_cover=ACTIONS, timeout=1500,
+                        workers=8)
     ctx.expect_ok(r, 'Build protocol')
-    for cfg, inv in (('Build_noclear.cfg', 'NoResidue'), ('Build_noreadclear.cfg', 'NoResidue'),
-                     ('Build_ctxearly.cfg', 'Isolation'), ('Build_clearlate.cfg', 'Isolation'),
-                     ('Build_sharedextras.cfg', 'Deterministic'),
-                     ('Build_nolock.cfg', 'Deterministic')):
-        r = ctx.model_check('Build', cfg, timeout=600, label='crippled protocol must violate ' + inv)
-        if inv not in r.violated:
-            raise MachineryError('%s: expected violation of %s, got %s' % (cfg, inv, r.violated))
+    for f_ in futs:
+        f_.result()
+    rprogs = frep.result()
+    ex.shutdown()
 
     rnd = random.Random(ctx.seed)
     nref = 24 if thorough else 10
@@ -217,7 +242,21 @@ def run(ctx):
     for _ in range(160 if thorough else 48):
         scen.append(race_scenario(rnd, sid, progs, special))
         sid += 1
+    # repeated builds of TLC-enumerated programs with dead code next to fusable sums (slice dfS / df3 of SynthGraphGen):
+    # which rewrite fires must not depend on the order in which a dead unit releases its inputs
+    if not thorough:
+        rprogs = rnd.sample(rprogs, min(len(rprogs), 1400))
+    for i, p in enumerate(rprogs):
+        p['name'] = 'df'                      # one name: nothing but the graph function distinguishes them
+    nrep = 8 if thorough else 6
+    rper = max(1, (len(rprogs) + 31) // 32)
+    for i in range(0, len(rprogs), rper):
+        scen.append(dict(id=sid, kind='repeat', progs=rprogs[i:i + rper], keys=['df%d' % k for k in range(i, i + len(rprogs[i:i + rper]))],
+                         n=nrep, seed=ctx.seed + i))
+        sid += 1
+    scen_by_id = {s_['id']: s_ for s_ in scen}
     per = max(1, (len(scen) + 15) // 16)
+    rnd.shuffle(scen)
     inputs = [dict(scenarios=scen[i:i + per]) for i in range(0, len(scen), per)]
     # 2. the same reference programs in fresh processes: hash seeds, RT mode, and the GC stress
     allseq = dict(id=0, kind='seq', steps=[dict(k='build', prog=p, key='k%d' % i) for i, p in enumerate(progs)]
@@ -254,7 +293,7 @@ def run(ctx):
     scen_of = {}
     for o in outs:
         for t in o['traces']:
-            scen_of[tid] = scen[t['id']]
+            scen_of[tid] = scen_by_id[t['id']]
             t['id'] = tid
             tid += 1
             traces.append(t)
@@ -284,7 +323,9 @@ def run(ctx):
     verdicts = ctx.validate('TraceBuild', 'TraceBuild.cfg', traces, timeout=900, env={'JAVA_TOOL_OPTIONS': sp.JVM_OPTS})
     nover = 0
     for t in traces:
-        if t['kind'] == 'threads':
+        if t['kind'] == 'repeat':
+            ctx.nontrivial(t['ev'][:12])
+        elif t['kind'] == 'threads':
             # non-trivial: some thread announced its attempt while another one was inside its function
             inside = set()
             hot = False
@@ -311,7 +352,7 @@ def run(ctx):
         e = t['ev'][at - 1]
         sc = scen_of[t['id']]
         rp = dict(kind=t['kind'], why=why, at=at, events=t['ev'][:at + 1] if len(t['ev']) < 200 else t['ev'][max(0, at - 20):at + 1])
-        if t['kind'] in ('seq', 'threads') and 'steps' in sc or 'threads' in sc:
+        if 'steps' in sc or 'threads' in sc or 'progs' in sc:
             rp['scenario'] = sc
         elif t['kind'] == 'gc':
             rp['scenario'] = dict(id=0, kind='gc', n=sc['n'], prog=gcprog)
@@ -322,6 +363,7 @@ def run(ctx):
     ctx.cov['evaluations'] = len(traces)
     ctx.cov['scenarios'] = dict(sequential=sum(1 for s in scen if s['kind'] == 'seq'),
                                 threaded=sum(1 for s in scen if s['kind'] == 'threads'),
+                                repeated=dict(programs=len(rprogs), rebuilds_each=nrep),
                                 threaded_with_real_overlap=nover, processes=len(extra) + 1, programs_compared=len(det),
                                 gc_builds=gcn)
     ex = [t for t in traces if t['kind'] == 'threads'][:1]
